@@ -139,6 +139,14 @@ impl FormatTime for SystemTime {
     }
 }
 
+/// Verification hook (`--cfg tracing_verif` only): formats a caller-supplied instant through exactly
+/// the code path `SystemTime::format_time` uses for `SystemTime::now()`.
+#[cfg(tracing_verif)]
+#[doc(hidden)]
+pub fn __verif_format_system_time(t: std::time::SystemTime, w: &mut dyn fmt::Write) -> fmt::Result {
+    write!(w, "{}", datetime::DateTime::from(t))
+}
+
 impl FormatTime for Uptime {
     fn format_time(&self, w: &mut Writer<'_>) -> fmt::Result {
         let e = self.epoch.elapsed();
